@@ -451,7 +451,46 @@ def run_random(concepts, case, spec):
     others = [random_definition(D, rng, names_o, names_p) for _ in range(3)]
     length = rng.randint(30, 200)
     history = []
+    root, forks = d, []
+    forking = case['n'] % 2 == 1        # every other history branches: copies / combinations keep being edited
     for step in range(length):
+        if forking:
+            if rng.random() < .08:
+                src = rng.choice([root] + forks)
+                o = rng.choice(others)
+                how = rng.randrange(6)
+                f = call([lambda: src.copy(), lambda: src.union(o, ignore_conflicts=True),
+                          lambda: src.intersection(o, ignore_conflicts=True), lambda: src.take(),
+                          lambda: D(*src), lambda: src.take(list(src.objects), list(src.properties), reorder=True)][how])
+                if f is not RAISED and isinstance(f, D):
+                    with core.monitor_code():
+                        model_of(f)             # adopted at birth: later edits of its source must not reach it
+                    forks.append(f)
+                    if len(forks) > 4:
+                        forks.pop(0)
+                    COL.count('history_forks')
+                    history.append(('fork', how))
+                    if rng.random() < .6:
+                        # both sides now use the names they had in common, in turn: a rename / move /
+                        # removal on one side, then the old and the new name on the other side
+                        a, b = (src, f) if rng.random() < .5 else (f, src)
+                        ax = rng.choice(['object', 'property'])
+                        names = list(a.objects if ax == 'object' else a.properties)
+                        if names:
+                            x = rng.choice(names)
+                            if rng.random() < .3:
+                                apply_op(a, f'move_{ax}', [x, 0], {})
+                            apply_op(a, f'rename_{ax}', [x, x + "'"], {})
+                            apply_op(b, f'move_{ax}', [x, rng.randrange(len(names))], {})
+                            apply_op(b, f'rename_{ax}', [x + "'", x + "''"], {})
+                            apply_op(b, f'move_{ax}', [x + "'", 0], {})
+                            apply_op(b, f'rename_{ax}', [x, x + '*'], {})
+                            apply_op(a, f'move_{ax}', [x + "'", 0], {})
+                            apply_op(a, f'remove_{ax}', [x + "'"], {})
+                            apply_op(b, f'remove_{ax}', [x + '*'], {})
+                            history.append(('both-sides-in-turn', ax, x))
+                            COL.count('forks_followed_by_edits_on_both_sides')
+            d = rng.choice([root] + forks) if forks and rng.random() < .6 else root
         op = rng.choice(MUTATORS)
         pick_o = lambda: rng.choice(names_o + ['unknown'] if rng.random() < .1 else (list(d.objects) or names_o))
         pick_p = lambda: rng.choice(names_p + ['unknown'] if rng.random() < .1 else (list(d.properties) or names_p))
@@ -489,6 +528,18 @@ def run_random(concepts, case, spec):
                 kwargs = {'ignore_conflicts': True}
         history.append((op, core.jsonable(args)))
         apply_op(d, op, list(args), kwargs)
+        if forks:
+            with core.monitor_code():
+                for x in [root] + forks:
+                    if x is d:
+                        continue
+                    m = model_of(x, adopt=False)
+                    COL.count('bystanders_compared_after_a_step')
+                    if m is not None and real_triple(x) != m.triple():
+                        COL.violation('history', 'history:definition-changed-by-an-edit-of-another-one',
+                                      list(m.triple()), list(real_triple(x)),
+                                      {'history_tail': history[-8:]})
+                        set_model(x, TableModel(x.objects, x.properties, x.bools))
         if rng.random() < .05:     # edit one of the others too (they stay live and tracked)
             o = rng.choice(others)
             call(o.__setitem__, (rng.choice(names_o), rng.choice(names_p)), rng.random() < .5)
